@@ -153,6 +153,23 @@ impl Stack {
         self.stack.truncate(frame.frame_pointer());
     }
 
+    /// Truncate the stack to the registers of the given frame, dropping every value that was
+    /// pushed above them (pending call arguments, the frames of callees that were unwound).
+    pub(crate) fn truncate_to_registers(&mut self, frame: &CallFrame) {
+        self.stack
+            .truncate(frame.rp as usize + frame.code_block().register_count as usize);
+    }
+
+    /// Number of values on the stack.
+    pub(crate) fn len(&self) -> usize {
+        self.stack.len()
+    }
+
+    /// Truncate the stack to `len` values.
+    pub(crate) fn truncate(&mut self, len: usize) {
+        self.stack.truncate(len);
+    }
+
     /// Split the stack at the given frame.
     pub(crate) fn split_off_frame(&mut self, frame: &CallFrame) -> Self {
         let frame_pointer = frame.frame_pointer();
@@ -663,9 +680,13 @@ impl Vm {
         // Go to handler location.
         frame.pc = u32::from(catch_address);
 
-        self.frame_mut()
-            .environments
-            .truncate(environment_sp as usize);
+        frame.environments.truncate(environment_sp as usize);
+
+        // Nothing is kept on the value stack above the registers, nor on the binding stack, across
+        // statements, so whatever the interrupted expression and its callees left there is dropped.
+        frame.binding_stack.clear();
+        let frame = self.frames.last().expect("frame must exist");
+        self.stack.truncate_to_registers(frame);
 
         true
     }
@@ -841,8 +862,12 @@ impl Context {
                 frame = Some(f);
             }
             self.vm.frame_mut().environments.truncate(env_fp);
-            if let Some(frame) = frame {
-                self.vm.stack.truncate_to_frame(&frame);
+            drop(frame);
+            // The frame that returns to the host is popped by the host entry: leave nothing of it,
+            // nor of its callees, on the value stack.
+            let frame = self.vm.frames.last().expect("frame must exist");
+            if frame.exit_early() {
+                self.vm.stack.truncate_to_frame(frame);
             }
             return ControlFlow::Break(CompletionRecord::Throw(err));
         }
@@ -940,6 +965,9 @@ impl Context {
             }
 
             if exit_early {
+                self.vm.frame_mut().environments.truncate(env_fp as usize);
+                let frame = self.vm.frames.last().expect("frame must exist");
+                self.vm.stack.truncate_to_frame(frame);
                 return ControlFlow::Break(CompletionRecord::Throw(
                     self.vm
                         .pending_exception
